@@ -435,6 +435,10 @@ class FV:
         out = []
         for n in self.return_nodes():
             raw, at = self.def_expr(n.ast.value, n.id)
+            if isinstance(raw, ast.Call):
+                js = format_call_to_joinedstr(self.prog, self.f.module, raw)
+                if js is not None:
+                    raw = js
             if isinstance(raw, ast.JoinedStr):
                 out.append(TemplateReturn(at, n.ast, raw))
         return out
@@ -902,6 +906,61 @@ class Hole:
     expr: ast.AST
     spec: Optional[str]
     conversion: int
+
+
+def format_call_to_joinedstr(prog, module, call: ast.Call) -> Optional[ast.JoinedStr]:
+    """`TEMPLATE.format(a, k=v)` with a constant template (literal, or module-level name bound to one - also imported from
+    another module of the package) rewritten as the equivalent f-string; None when it is not of that shape."""
+    import string
+
+    if not (isinstance(call.func, ast.Attribute) and call.func.attr == "format"):
+        return None
+    base = call.func.value
+    text = None
+    if isinstance(base, ast.Constant) and isinstance(base.value, str):
+        text = base.value
+    elif isinstance(base, ast.Name):
+        r = prog.resolve_name(module, base.id)
+        if isinstance(r, tuple) and r[0] == "value":
+            v = r[1].assigns.get(r[2])
+            if isinstance(v, ast.Constant) and isinstance(v.value, str):
+                text = v.value
+    if text is None or any(isinstance(a, ast.Starred) for a in call.args) or any(k.arg is None for k in call.keywords):
+        return None
+    kw = {k.arg: k.value for k in call.keywords}
+    values: List[ast.AST] = []
+    auto = 0
+    try:
+        fields = list(string.Formatter().parse(text))
+    except ValueError:
+        return None
+    for literal, field, spec, conv in fields:
+        if literal:
+            values.append(ast.Constant(value=literal))
+        if field is None:
+            continue
+        if field == "":
+            key_, auto = auto, auto + 1
+        elif field.isdigit():
+            key_ = int(field)
+        else:
+            key_ = field
+        if isinstance(key_, int):
+            if key_ >= len(call.args):
+                return None
+            expr = call.args[key_]
+        elif key_ in kw:
+            expr = kw[key_]
+        else:
+            return None  # attribute / index lookups inside the field name are not modelled
+        fs = None
+        if spec:
+            if "{" in spec:
+                return None
+            fs = ast.JoinedStr(values=[ast.Constant(value=spec)])
+        values.append(ast.FormattedValue(value=expr, conversion={None: -1, "s": 115, "r": 114, "a": 97}.get(conv, -1), format_spec=fs))
+    js = ast.JoinedStr(values=values)
+    return ast.copy_location(js, call)
 
 
 def template_parts(e: ast.AST) -> Optional[List[object]]:
